@@ -38,7 +38,7 @@ def _writes(methods, name, attr, depth=3, seen=None):
     return None
 
 
-def analyse(prog, cls, flags_only=True):
+def analyse(prog, cls, flags_only=True, all_paths=False):
     """[(parameter, ok, node, why)] for the parameters of cls.__init__ stored under their own name."""
     init = cls.methods.get("__init__")
     if init is None or not isinstance(init.node, ast.FunctionDef):
@@ -98,7 +98,14 @@ def analyse(prog, cls, flags_only=True):
                             state = {"O"}
             return state
 
-        block(init.node.body, {"U"})
+        final = block(init.node.body, {"U"})
+        if all_paths and culprit[0] is None and final and final != {"K"}:
+            # on some path to the end of the constructor something else (or nothing) is stored under the parameter's name
+            other = [st for st in walk_no_nested(init.node) if isinstance(st, ast.Assign)
+                     and any(isinstance(t_, ast.Attribute) and norm(t_.value) == "self" and t_.attr == p for t_ in st.targets)
+                     and not (isinstance(st.value, ast.Name) and st.value.id == p)]
+            culprit[0] = (other[0] if other else direct[0],
+                          "`%s` on a path on which the parameter is not stored" % (norm(other[0])[:60] if other else "nothing"))
         ok = culprit[0] is None
         out.append((p, ok, culprit[0][0] if (not ok and culprit[0]) else direct[0], culprit[0][1] if (not ok and culprit[0]) else ""))
     return out
